@@ -370,3 +370,134 @@ def check_C18(ck, res, replay):
     res.extra["mode_distribution"] = dist
     res.extra["model_mismatches"] = mism
     return ck.finish(res, "proof", ASSUME_COMMON + ["roaring bitmaps = finite sets of positions"])
+
+
+# ====================================================================== C08 parser
+def doc_cases(res, rng, nvalid, nbad):
+    cf = gen.CaseFile()
+    for i in range(nvalid):
+        style = rng.below(3)
+        text, n = gen.gen_adf(rng, nmax=6, depth=4, style=style,
+                              layout={"shuffle": rng.chance(1, 2), "ws": rng.chance(2, 3)})
+        cf.add("PARSE", ["text " + gen.hexs(text)], meta={"text": text, "valid": True})
+    for i in range(nbad):
+        style = rng.below(3)
+        text, n = gen.gen_adf(rng, nmax=4, depth=3, style=style, layout={"shuffle": rng.chance(1, 2), "ws": rng.chance(1, 3)})
+        m = gen.mutate(rng, text)
+        if rng.chance(1, 4):
+            m = gen.mutate(rng, m)
+        cf.add("PARSE", ["text " + gen.hexs(m)], meta={"text": m, "valid": None})
+    for t in ["", " ", "s(a)", "s(a).", " s(a).", "s(a). ", "s(a).s(a).", "ac(a,b).", "s(a).ac(a,c(v)", "s(a).ac(a,and(a)).",
+              "s(a).ac(a,neg(a,a)).", "s(a).ac(a,c(x)).", "s(\"a\").", "s(\"\").", "s(\"a).", "s(a)..", "s(a).x", "s(a).s", "s(a)\n.",
+              "s(a).ac(a,and(b,c))).", "s(a).ac(a,and (b,c)).", "s(a).ac(a, and(b,c)).", "s(a).ac(a,and(b,c) ).", "s(a).ac(a ,b).", "s(a_b)."]:
+        cf.add("PARSE", ["text " + gen.hexs(t)], prefix="f", meta={"text": t, "valid": None})
+    return cf
+
+
+def py_grammar(text):
+    """independent recogniser of the documented grammar: returns (names, [(name, formula debug string)]) or None"""
+    try:
+        if text == "" or text[0] in " \t\r\n":
+            return None
+        names, conds = [], []
+        pos = 0
+        n = len(text)
+        def skip(p):
+            while p < n and text[p] in " \t\r\n":
+                p += 1
+            return p
+        def label(p):
+            if text[p] == '"':
+                e = text.index('"', p + 1)
+                return text[p + 1:e], e + 1
+            q = p
+            while q < n and text[q].isascii() and text[q].isalnum():
+                q += 1
+            if q == p:
+                raise ValueError
+            return text[p:q], q
+        def dbg(f):
+            k = f[0]
+            if k == "top": return "Const(T)"
+            if k == "bot": return "Const(B)"
+            if k == "atom": return f[1]
+            if k == "neg": return "not(%s)" % dbg(f[1])
+            return "%s(%s,%s)" % (k, dbg(f[1]), dbg(f[2]))
+        while pos < n:
+            if text.startswith("s(", pos):
+                nm, p = label(pos + 2)
+                if text[p:p + 2] != ").":
+                    raise ValueError
+                if nm not in names:
+                    names.append(nm)
+                pos = skip(p + 2)
+            elif text.startswith("ac(", pos):
+                nm, p = label(pos + 3)
+                p = skip(p)
+                if text[p] != ",":
+                    raise ValueError
+                p = skip(p + 1)
+                f, p = oracle.parse_formula(text, p)
+                if text[p:p + 2] != ").":
+                    raise ValueError
+                conds.append((nm, dbg(f)))
+                pos = skip(p + 2)
+            else:
+                raise ValueError
+        if not names and not conds:
+            return None
+        return names, conds
+    except (ValueError, IndexError):
+        return None
+
+
+def check_C08(ck, res, replay):
+    common_front(ck, res, "C08")
+    hbin = ck.build_harness(res)
+    rng = gen.Rng(res.seed ^ 0xC08)
+    if replay:
+        r = json.load(open(replay))
+        cf = gen.CaseFile()
+        cf.add("PARSE", ["text " + gen.hexs(r["text"])], meta={"text": r["text"], "valid": None})
+    else:
+        cf = doc_cases(res, rng, 2500 if res.tier == "quick" else 60000, 5000 if res.tier == "quick" else 150000)
+    impl, model = correspond(ck, res, cf, hbin, "C08")
+    nontriv = set()
+    acc = rej = mism = 0
+    for cid, (kind, body, meta) in cf.meta.items():
+        a, b = impl.get(cid), model.get(cid)
+        text = meta["text"]
+        g = py_grammar(text)
+        if a is None or not a or not a[0].startswith("parse"):
+            res.violations.append({"key": "parse:panic", "what": "parser panicked or printed nothing", "text": text, "observed": a})
+            continue
+        ok = a[0].split()[1] == "OK"
+        acc += ok
+        rej += (not ok)
+        if len(text) > 12:
+            nontriv.add(text)
+        if g is None and ok:
+            res.violations.append({"key": "parse:accepts-malformed", "what": "text outside the documented grammar is accepted", "text": text, "observed": a})
+        elif g is not None and not ok:
+            res.violations.append({"key": "parse:rejects-valid", "what": "text of the documented grammar is rejected", "text": text, "observed": a})
+        elif g is not None:
+            names = [bytes.fromhex(x[1:]).decode("utf8", "replace") for x in a[0].split("names=")[1].split(" ")[0].split(",") if x]
+            acs = a[0].split("acs=")[1]
+            got = [tuple(bytes.fromhex(y[1:]).decode("utf8", "replace") for y in x.split(":")) for x in acs.split(";") if x]
+            if names != g[0] or got != [(nm, f) for nm, f in g[1]]:
+                res.violations.append({"key": "parse:wrong-content", "what": "accepted text yields other statements/formulas than written: %r vs %r" % ((names, got), g),
+                                       "text": text, "observed": a})
+        if a != b:
+            mism += 1
+            if mism <= 5:
+                res.broken.append(("correspondence", "parser model and implementation differ on %r" % text, json.dumps({"impl": a, "model": b})[:1500]))
+    res.cov["evaluations"] = len(cf.meta)
+    res.cov["distinct_nontrivial"] = len(nontriv)
+    res.cov["rule"] = ("valid stream: rendered random documents (fact order shuffled, layout toggled, plain / keyword-like / quoted labels); malformed stream: "
+                       "one or two byte-level mutations (delete, insert, replace, truncate, duplicate, leading blank, trailing junk, swap) + a fixed list of "
+                       "edge texts; non-trivial = longer than 12 bytes, distinct; judged by an independent recogniser of the documented grammar")
+    res.cov["samples"] = [cf.meta[c][2]["text"] for c in list(cf.meta)[:3]] + [cf.meta[c][2]["text"] for c in list(cf.meta)[-30:-27]]
+    res.extra["accepted"] = acc
+    res.extra["rejected"] = rej
+    res.extra["model_mismatches"] = mism
+    return ck.finish(res, "proof", ASSUME_COMMON + ["nom 7.1 primitives (tag, alt, many1, all_consuming, alphanumeric1 = ASCII, take_until, multispace0) behave as transcribed"])
